@@ -1,0 +1,233 @@
+//go:build verif
+
+package signing
+
+import (
+	"math/big"
+
+	"github.com/bnb-chain/tss-lib/tss"
+	"github.com/ipfs/go-log/v2"
+
+	"github.com/keep-network/keep-core/pkg/net"
+	"github.com/keep-network/keep-core/pkg/protocol/group"
+	"github.com/keep-network/keep-core/pkg/protocol/state"
+	"github.com/keep-network/keep-core/pkg/tecdsa"
+	"github.com/keep-network/keep-core/pkg/tecdsa/common"
+)
+
+// Verification hooks for property C08 (thin wrappers, no behaviour of their own).
+
+// VerifProbe holds a member built by newMember and one instance of every
+// signing state, all sharing one message history like in a real execution.
+type VerifProbe struct {
+	member *member
+	base   *state.BaseAsyncState
+	states []state.AsyncState
+}
+
+// VerifMessageKinds is the number of message kinds VerifNewMessage knows.
+const VerifMessageKinds = 10
+
+// VerifStateKinds is the number of states of a VerifProbe.
+const VerifStateKinds = 12
+
+// VerifNewProbe builds the member with newMember, marks the given members as
+// disqualified with the group's own marking function and creates the states.
+func VerifNewProbe(
+	logger log.StandardLogger,
+	memberIndex group.MemberIndex,
+	privateKeyShare *tecdsa.PrivateKeyShare,
+	groupSize int,
+	dishonestThreshold int,
+	disqualify []group.MemberIndex,
+	membershipValidator *group.MembershipValidator,
+	sessionID string,
+) *VerifProbe {
+	m := newMember(
+		logger,
+		memberIndex,
+		groupSize,
+		dishonestThreshold,
+		membershipValidator,
+		sessionID,
+		big.NewInt(0),
+		privateKeyShare,
+	)
+	for _, index := range disqualify {
+		m.group.MarkMemberAsDisqualified(index)
+	}
+
+	base := state.NewBaseAsyncState()
+	ekpgm := m.initializeEphemeralKeysGeneration()
+	skgm := ekpgm.initializeSymmetricKeyGeneration()
+	r1 := &tssRoundOneMember{symmetricKeyGeneratingMember: skgm}
+	r2 := r1.initializeTssRoundTwo()
+	r3 := r2.initializeTssRoundThree()
+	r4 := r3.initializeTssRoundFour()
+	r5 := r4.initializeTssRoundFive()
+	r6 := r5.initializeTssRoundSix()
+	r7 := r6.initializeTssRoundSeven()
+	r8 := r7.initializeTssRoundEight()
+	r9 := r8.initializeTssRoundNine()
+	fm := r9.initializeFinalization()
+
+	return &VerifProbe{
+		member: m,
+		base:   base,
+		states: []state.AsyncState{
+			&ephemeralKeyPairGenerationState{BaseAsyncState: base, member: ekpgm},
+			&symmetricKeyGenerationState{BaseAsyncState: base, member: skgm},
+			&tssRoundOneState{BaseAsyncState: base, member: r1},
+			&tssRoundTwoState{BaseAsyncState: base, member: r2},
+			&tssRoundThreeState{BaseAsyncState: base, member: r3},
+			&tssRoundFourState{BaseAsyncState: base, member: r4},
+			&tssRoundFiveState{BaseAsyncState: base, member: r5},
+			&tssRoundSixState{BaseAsyncState: base, member: r6},
+			&tssRoundSevenState{BaseAsyncState: base, member: r7},
+			&tssRoundEightState{BaseAsyncState: base, member: r8},
+			&tssRoundNineState{BaseAsyncState: base, member: r9},
+			&finalizationState{BaseAsyncState: base, member: fm},
+		},
+	}
+}
+
+// Receive calls Receive of the given state.
+func (p *VerifProbe) Receive(stateIndex int, msg net.Message) error {
+	return p.states[stateIndex].Receive(msg)
+}
+
+// CanTransition calls CanTransition of the given state.
+func (p *VerifProbe) CanTransition(stateIndex int) bool {
+	return p.states[stateIndex].CanTransition()
+}
+
+// History returns, in storage order, the senders of the history entries kept
+// under the type of the given message kind.
+func (p *VerifProbe) History(kind int) []group.MemberIndex {
+	senders := make([]group.MemberIndex, 0)
+	for _, msg := range p.base.GetAllReceivedMessages(VerifNewMessage(kind, 0, "").Type()) {
+		senders = append(senders, msg.Payload().(message).SenderID())
+	}
+	return senders
+}
+
+// Received returns the senders of receivedMessages for the given kind.
+func (p *VerifProbe) Received(kind int) []group.MemberIndex {
+	senders := make([]group.MemberIndex, 0)
+	switch kind {
+	case 0:
+		for _, m := range receivedMessages[*ephemeralPublicKeyMessage](p.base) {
+			senders = append(senders, m.SenderID())
+		}
+	case 1:
+		for _, m := range receivedMessages[*tssRoundOneMessage](p.base) {
+			senders = append(senders, m.SenderID())
+		}
+	case 2:
+		for _, m := range receivedMessages[*tssRoundTwoMessage](p.base) {
+			senders = append(senders, m.SenderID())
+		}
+	case 3:
+		for _, m := range receivedMessages[*tssRoundThreeMessage](p.base) {
+			senders = append(senders, m.SenderID())
+		}
+	case 4:
+		for _, m := range receivedMessages[*tssRoundFourMessage](p.base) {
+			senders = append(senders, m.SenderID())
+		}
+	case 5:
+		for _, m := range receivedMessages[*tssRoundFiveMessage](p.base) {
+			senders = append(senders, m.SenderID())
+		}
+	case 6:
+		for _, m := range receivedMessages[*tssRoundSixMessage](p.base) {
+			senders = append(senders, m.SenderID())
+		}
+	case 7:
+		for _, m := range receivedMessages[*tssRoundSevenMessage](p.base) {
+			senders = append(senders, m.SenderID())
+		}
+	case 8:
+		for _, m := range receivedMessages[*tssRoundEightMessage](p.base) {
+			senders = append(senders, m.SenderID())
+		}
+	case 9:
+		for _, m := range receivedMessages[*tssRoundNineMessage](p.base) {
+			senders = append(senders, m.SenderID())
+		}
+	}
+	return senders
+}
+
+// Operating returns the member's view of the operating members.
+func (p *VerifProbe) Operating() []group.MemberIndex {
+	return p.member.group.OperatingMemberIndexes()
+}
+
+// PartyKeys returns the member's own party key and the sorted party keys, as
+// produced by common.GenerateTssPartiesIDs and tss.SortPartyIDs.
+func (p *VerifProbe) PartyKeys() (*big.Int, []*big.Int) {
+	own, all := common.GenerateTssPartiesIDs(
+		p.member.id,
+		p.member.group.OperatingMemberIndexes(),
+		p.member.identityConverter,
+	)
+	var ownKey *big.Int
+	if own != nil {
+		ownKey = own.KeyInt()
+	}
+	keys := make([]*big.Int, 0)
+	for _, id := range tss.SortPartyIDs(all) {
+		keys = append(keys, id.KeyInt())
+	}
+	return ownKey, keys
+}
+
+// VerifMemberIndexToKey calls the signing identity converter over the given keys.
+func VerifMemberIndexToKey(keys []*big.Int, index group.MemberIndex) *big.Int {
+	return (&identityConverter{keys: keys}).MemberIndexToTssPartyIDKey(index)
+}
+
+// VerifKeyToMemberIndex calls the signing identity converter over the given keys.
+func VerifKeyToMemberIndex(keys []*big.Int, key *big.Int) group.MemberIndex {
+	return (&identityConverter{keys: keys}).TssPartyIDToMemberIndex(
+		tss.NewPartyID(key.Text(10), "", key),
+	)
+}
+
+// VerifMessage is what the probe needs from a protocol message.
+type VerifMessage interface {
+	SenderID() group.MemberIndex
+	SessionID() string
+	Type() string
+}
+
+// VerifNewMessage builds an (otherwise empty) protocol message of the given kind.
+func VerifNewMessage(
+	kind int,
+	senderID group.MemberIndex,
+	sessionID string,
+) VerifMessage {
+	switch kind {
+	case 0:
+		return &ephemeralPublicKeyMessage{senderID: senderID, sessionID: sessionID}
+	case 1:
+		return &tssRoundOneMessage{senderID: senderID, sessionID: sessionID}
+	case 2:
+		return &tssRoundTwoMessage{senderID: senderID, sessionID: sessionID}
+	case 3:
+		return &tssRoundThreeMessage{senderID: senderID, sessionID: sessionID}
+	case 4:
+		return &tssRoundFourMessage{senderID: senderID, sessionID: sessionID}
+	case 5:
+		return &tssRoundFiveMessage{senderID: senderID, sessionID: sessionID}
+	case 6:
+		return &tssRoundSixMessage{senderID: senderID, sessionID: sessionID}
+	case 7:
+		return &tssRoundSevenMessage{senderID: senderID, sessionID: sessionID}
+	case 8:
+		return &tssRoundEightMessage{senderID: senderID, sessionID: sessionID}
+	default:
+		return &tssRoundNineMessage{senderID: senderID, sessionID: sessionID}
+	}
+}
